@@ -729,25 +729,52 @@ func (r *run) Do(op string) string {
 		r.nat.HoldPoolForVerif()
 		done := make(chan string, 1)
 		go func() { done <- r.send(p1) }()
-		r1, finished := "", false
+		// wait until the first termination has either returned or is parked at the held lock.  Parked = the QoS entry
+		// of its address is gone (RemoveSubscriberQoS is the call right before DeallocateNAT).  A first termination that
+		// never gets that far and never returns (a changed handler) is reported as `stuck` instead of hanging the run.
+		r1, finished, stuck := "", false, false
 		for spins := 0; ; spins++ {
 			select {
 			case r1 = <-done:
 				finished = true
 			default:
 			}
-			// parked: the lease is out of the table and the QoS entry (removed just before the NAT call) is gone
-			if finished || (ip != nil && r.leaseOf(k1) == nil && !r.qosHas(ip)) {
+			if finished || (takes && !r.qosHas(ip)) {
 				break
 			}
-			if spins > 50000000 {
-				r.nat.ReleasePoolForVerif()
-				return "stuck"
+			if spins > 200000 {
+				stuck = true
+				break
 			}
 			runtime.Gosched()
 		}
-		r2, _ := r.inner(second)
+		if stuck {
+			r.nat.ReleasePoolForVerif()
+			<-done
+			syncWait()
+			return "stuck " + r.snapshot()
+		}
+		// the second termination must not need the held lock (that was checked above against the state the first one
+		// leaves); it runs on a goroutine of its own all the same, so that a handler that does reach the lock (because
+		// the first one did not take the lease out of the table) shows as `blocked:` instead of hanging the run
+		done2 := make(chan string, 1)
+		go func() {
+			x, _ := r.inner(second)
+			done2 <- x
+		}()
+		r2, fin2 := "", false
+		for spins := 0; spins < 1000000 && !fin2; spins++ {
+			select {
+			case r2 = <-done2:
+				fin2 = true
+			default:
+				runtime.Gosched()
+			}
+		}
 		r.nat.ReleasePoolForVerif()
+		if !fin2 {
+			r2 = "blocked:" + <-done2
+		}
 		if !finished {
 			r1 = <-done
 		}
